@@ -51,6 +51,7 @@ type topo struct {
 	base  mix
 	newIG igSpec // stored through the real save handler
 	newI2 igSpec // stored second (scenario "gens")
+	dupIG igSpec // names its source twice (scenario "dupsave")
 	badIG igSpec // references a source configured nowhere (scenario "fail")
 	hosts []string
 	live  bool // has a task that never ends by itself
@@ -65,6 +66,7 @@ func topoOf(name string) topo {
 	t.newIG = igSpec{Name: "igb", Enabled: true, Refs: []refSpec{r12("s1")}}
 	t.badIG = igSpec{Name: "igx", Enabled: true, Refs: []refSpec{r12("s1"), r12("sx")}}
 	t.newI2 = igSpec{Name: "igz", Enabled: true, Refs: []refSpec{r12("s1")}}
+	t.dupIG = igSpec{Name: "igb", Enabled: true, Refs: []refSpec{r12("s1"), r12("s1")}}
 	f3 := func(names ...string) (out []igSpec) {
 		for _, n := range names {
 			out = append(out, igSpec{Name: n, Enabled: true, Refs: []refSpec{r12("s1")}})
@@ -72,6 +74,11 @@ func topoOf(name string) topo {
 		return
 	}
 	switch name {
+	case "1u": // the file integration names its source twice: still ONE pair
+		t.base = mix{FileSrcs: []srcSpec{s1}, FileIGs: []igSpec{{Name: "iga", Enabled: true, Refs: []refSpec{r12("s1"), r12("s1")}}}}
+	case "1v": // a stored integration names its source twice (dashboard-stored form), next to a plain file integration
+		t.base = mix{FileSrcs: []srcSpec{s1}, FileIGs: []igSpec{{Name: "iga", Enabled: true, Refs: []refSpec{r12("s1")}}},
+			DBIGs: []igSpec{{Name: "igc", Enabled: true, Refs: []refSpec{r12("s1"), {Name: "s1", Start: 2, Stop: 2}}}}, Stored: true}
 	case "3f": // three file integrations (the decoded slice has spare capacity); stored names sort before and after them
 		t.base = mix{FileSrcs: []srcSpec{s1}, FileIGs: f3("igc", "ige", "igg")}
 		t.newIG = igSpec{Name: "iga", Enabled: true, Refs: []refSpec{r12("s1")}}
@@ -331,7 +338,22 @@ func (ob *observer) checkMutex() {
 					gens = append(gens, fmt.Sprintf("%s (started by %s, %d steps)", x.t.Name, x.parent.t.Name, x.steps))
 				}
 			}
-			ob.violate("mutex", "S:mutex:two-live-runners", fmt.Sprintf("pair %s is driven by %d live runner threads at once: %s", pair, len(l), strings.Join(gens, ", ")))
+			key := "S:mutex:two-live-runners"
+			sameGen := true
+			var first *thrInfo
+			for _, x := range ob.infos {
+				if x.kind == kRunner && !x.t.Done() && x.pair == pair {
+					if first == nil {
+						first = x
+					} else if x.parent != first.parent {
+						sameGen = false
+					}
+				}
+			}
+			if sameGen {
+				key += ":duplicate-source-ref" // ONE generation started two runners for one pair
+			}
+			ob.violate("mutex", key, fmt.Sprintf("pair %s is driven by %d live runner threads at once: %s", pair, len(l), strings.Join(gens, ", ")))
 		}
 	}
 }
@@ -417,6 +439,10 @@ func sExec(j sJob, p *sPrep, win *dfsRun, states *vrt.StateSet) (res sResult) {
 		}
 		conf, err := world.ParseConf(p.conf)
 		if err != nil {
+			if r := reference(p.t.base); r.Dup || r.DupOff {
+				res.outcome = "startup-error:config-rejected:duplicate-source-ref" // a start-up error satisfies the property
+				return
+			}
 			w.HarnessErr = "config: " + err.Error()
 			return
 		}
@@ -526,6 +552,15 @@ func sExec(j sJob, p *sPrep, win *dfsRun, states *vrt.StateSet) (res sResult) {
 			w.V.Join(startBoot())
 			restarter("rA", func() { save(p.t.newIG) })
 			restarter("rB", func() { call("restart", nil) })
+		case "dupsave": // the dashboard is asked to store an integration that names its source twice
+			w.V.Join(startBoot())
+			restarter("rA", func() {
+				if r := call("save:"+p.t.dupIG.Name+"(source twice)", &p.t.dupIG); r.Returned && r.Err == "" {
+					final.DBIGs = append(append([]igSpec{}, final.DBIGs...), p.t.dupIG)
+				}
+			})
+		case "boot": // start-up only
+			w.V.Join(startBoot())
 		case "gens": // one long-lived Manager: save, restart, save another, restart - every generation is judged
 			w.V.Join(startBoot())
 			restarter("rA", func() {
@@ -664,21 +699,33 @@ func judgeFinal(w *world.W, ob *observer, j sJob, topoKind string, ops []*opRec,
 			return ""
 		}
 	}
+	if r := reference(ob.topo.base); booted && bootErr != nil && r.Dup && !r.Err {
+		return "startup-error:duplicate-source-ref" // one task for the pair or a start-up error: both satisfy the property
+	}
 	if booted && bootErr != nil {
 		ob.violate("startup-error", "S:startup-error", "Run reported a start-up error on a valid configuration: "+bootErr.Error())
 		return ""
 	}
 	for i, o := range ops {
-		bad := j.Scen == "fail" && i == 0
+		bad := (j.Scen == "fail" || j.Scen == "dupsave") && i == 0 // rejecting these requests is right
 		if o.Err != "" && !bad {
 			ob.violate("restart-error", "S:restart-error:"+j.Scen, fmt.Sprintf("%s by %s failed on a valid configuration: %s", o.Kind, o.Thread, o.Err))
 			return ""
 		}
 	}
 	// (3) the set being driven == the configured set, including what was stored
+	if j.Scen == "dupsave" && len(ops) > 0 && ops[0].Err != "" {
+		for _, r := range w.PG.Dump("shovel.integrations") {
+			if n, _ := r.Vals["name"].(string); n == ob.topo.dupIG.Name {
+				// rejected only after the row was stored (the restart failed): like scenario "fail", the set running
+				// after a FAILED restart is not judged
+				return "dupsave:rejected-after-store"
+			}
+		}
+	}
 	// (3') EVERY generation was loaded with exactly what was configured when it read the configuration
 	known := map[string]igSpec{}
-	for _, ig := range append(append([]igSpec{}, ob.topo.base.DBIGs...), ob.topo.newIG, ob.topo.newI2, ob.topo.badIG) {
+	for _, ig := range append(append([]igSpec{}, ob.topo.base.DBIGs...), ob.topo.newIG, ob.topo.newI2, ob.topo.badIG, ob.topo.dupIG) {
 		known[ig.Name] = ig
 	}
 	for gi, g := range ob.gens {
@@ -690,6 +737,9 @@ func judgeFinal(w *world.W, ob *observer, j sJob, topoKind string, ops []*opRec,
 		wg := reference(m)
 		if wg.Err {
 			continue // this generation's load must fail; judged through the request's result
+		}
+		if wg.Dup && g.children == 0 {
+			continue // a source named twice: failing to load is one of the two acceptable behaviours
 		}
 		var wp []string
 		for p := range wg.Pairs {
@@ -811,6 +861,8 @@ func sJobs(thorough bool) []sJob {
 		add(2, []string{"2d", "2l"}, []string{"after", "late"})
 		add(1, []string{"2d", "2l"}, []string{"early"})
 		add(1, []string{"3f", "5f"}, []string{"gens"})
+		add(0, []string{"1u", "1v"}, []string{"boot"})
+		add(2, []string{"1d", "1l"}, []string{"dupsave"})
 		add(3, []string{"1d", "1c", "1l"}, []string{"b2b"})
 		add(2, []string{"1d"}, []string{"early"})
 		return jobs
@@ -820,6 +872,8 @@ func sJobs(thorough bool) []sJob {
 	add(2, []string{"1c"}, []string{"after", "late"})
 	add(1, []string{"1d", "1l"}, []string{"two"})
 	add(0, []string{"3f", "5f"}, []string{"gens"}) // bound 0: the free choices only
+	add(0, []string{"1u", "1v"}, []string{"boot"})
+	add(1, []string{"1d"}, []string{"dupsave"})
 	return jobs
 }
 
